@@ -61,6 +61,7 @@ set of a real `Shoot`, race-detector sweep); see `Drv/C11.lean`.
 import Pandora.Proofs.C11Exec
 import Pandora.Proofs.C11Own
 import Pandora.Proofs.C11Closure
+import Pandora.Proofs.C11Ammo
 import Pandora.Bridge.C11Locks
 import Pandora.Gen.Locks
 import Pandora.Spec.C11
@@ -499,6 +500,112 @@ example : (Pandora.Gen.Locks.pkgVars.filter fun v => !v.2.2.isEmpty).length ≥ 
 /-- a package-level cache written by an instance-facing function without protection is rejected -/
 example : Pandora.Spec.C11.pkgVarOk ("components/providers/scenario/http/postprocessor.exprCache", "map[string]*xpath.Expr",
     [("getValuesFromDOM", ".none")]) = false := by decide
+
+/-! ### the provider's side: requests built from a decoded ammo that is delivered again -/
+
+/-- the regenerated reference flows of `(*Provider).Acquire` of the http provider and everything it calls: no map of a
+caller is kept, every stored slice / pointer of a caller is a reviewed one -/
+theorem C11_ammo_flows_reviewed : Pandora.Gen.Locks.ammoFlows.all Pandora.Spec.C11.flowOk = true := by decide
+
+example : Pandora.Gen.Locks.ammoFlows.length ≥ 3 ∧ Pandora.Gen.Locks.ammoFlowFuncs.length ≥ 5 := by decide
+
+/-- what `Acquire` and everything it calls write through their receivers and parameters: only the request being built
+(a parameter that every call chain binds to something the caller made itself) and the atomic id counter — nothing of the
+provider, of a middleware or of a decoded ammo, the objects every instance's `Acquire` uses -/
+theorem C11_acquire_writes_own : Pandora.Gen.Locks.ammoWrites.all Pandora.Spec.C11.writeOk = true := by decide
+
+example : Pandora.Gen.Locks.ammoWrites.length ≥ 3 ∧
+    Pandora.Spec.C11.writeOk ("components/providers/http/middleware/headerdate.Middleware.UpdateRequest", "recv", "recv.last", "assign") = false ∧
+    Pandora.Spec.C11.flowOk ("components/providers/http/decoders/ammo.Ammo.BuildRequest", "ptr", "return", "0", "recv.built") = false := by decide
+
+/-- … hence the model of the current source builds every request's header map as a new object -/
+theorem C11_request_map_fresh : buildOfFlows Pandora.Gen.Locks.ammoFlows = .fresh := by decide
+
+/-- Whatever the decoded ammo (`st`: their header maps, and any other map object of the pool, e.g. the requests other
+instances hold), whatever the middlewares, however many deliveries in whatever order of file positions — any number of
+passes, any instance asking —: no object that existed before a delivery is changed by it or by any later one. The
+decoded ammo is never altered, and a request an instance holds is never altered by the `Acquire` of another. -/
+theorem C11_acquire_keeps_ammo (mws : List (String × String)) (st : Store) (srcs : List Nat)
+    (h : ∀ s ∈ srcs, s < st.length) (i : Nat) (hi : i < st.length) :
+    (acquires (buildOfFlows Pandora.Gen.Locks.ammoFlows) mws st srcs).1[i]? = st[i]? := by
+  rw [C11_request_map_fresh, acquires_fresh mws srcs st h]
+  exact List.getElem?_append_left hi
+
+/-- … and every delivered request has a header object of its own (the ids are pairwise distinct and new), whose content
+— after ALL deliveries — is what the request carries when it is the only one ever built from its decoded ammo: a
+function of that ammo and the middlewares, not of the deliveries before or after it. -/
+theorem C11_acquire_isolated (mws : List (String × String)) (st : Store) (srcs : List Nat)
+    (h : ∀ s ∈ srcs, s < st.length) :
+    let r := acquires (buildOfFlows Pandora.Gen.Locks.ammoFlows) mws st srcs
+    r.2.Nodup ∧ (∀ id ∈ r.2, st.length ≤ id) ∧
+    ∀ j (hj : j < srcs.length), r.1.getD (r.2.getD j 0) [] = delivered mws (st.getD srcs[j] []) := by
+  rw [C11_request_map_fresh, acquires_fresh mws srcs st h]
+  refine ⟨List.nodup_range', ?_, ?_⟩
+  · intro id hid
+    have := List.mem_range'_1.mp hid
+    omega
+  · intro j hj
+    simp [List.getD_eq_getElem?_getD, hj]
+
+/-- non-vacuity: two decoded ammo (one with a Host header), a Date middleware, five deliveries over two and a half
+passes: five new objects, each with one Date value; the decoded ammo as before -/
+example : acquires .fresh [("Date", "d")] [[("Host", ["h"]), ("X-A", ["a"])], [("X-B", ["b"])]] [0, 1, 0, 1, 0] =
+    ([[("Host", ["h"]), ("X-A", ["a"])], [("X-B", ["b"])],
+      [("X-A", ["a"]), ("Date", ["d"])], [("X-B", ["b"]), ("Date", ["d"])], [("X-A", ["a"]), ("Date", ["d"])],
+      [("X-B", ["b"]), ("Date", ["d"])], [("X-A", ["a"]), ("Date", ["d"])]], [2, 3, 4, 5, 6]) := by decide
+
+/-- the same isolation claim for a `BuildRequest` that takes the decoded header map as it is when it has entries and
+no `Host` (the seeded fast path of `EnrichRequestWithHeaders`) -/
+def C11_acquire_alias_statement : Prop :=
+  ∀ (mws : List (String × String)) (st : Store) (srcs : List Nat), (∀ s ∈ srcs, s < st.length) →
+    ∀ i, i < st.length → (acquires .alias mws st srcs).1[i]? = st[i]?
+
+/-- … is false: one decoded ammo without Host, a Date middleware, two deliveries — both requests ARE the decoded ammo's
+map (same object), the second `Acquire` adds a second Date value to the request the first instance holds, and the decoded
+ammo is altered for every later pass; the regenerated row of that change is rejected -/
+theorem C11_acquire_alias_counterexample :
+    ¬ C11_acquire_alias_statement ∧
+    acquires .alias [("Date", "d")] [[("X-A", ["a"])]] [0, 0] = ([[("X-A", ["a"]), ("Date", ["d", "d"])]], [0, 0]) ∧
+    (acquire .alias [("Date", "d")] [[("X-A", ["a"])]] 0).1 = [[("X-A", ["a"]), ("Date", ["d"])]] ∧
+    Pandora.Spec.C11.flowOk ("components/providers/http/util.EnrichRequestWithHeaders", "map", "store", "param0.Header", "param1") = false ∧
+    buildOfFlows [("components/providers/http/util.EnrichRequestWithHeaders", "map", "store", "param0.Header", "param1")] = .alias := by
+  refine ⟨?_, by decide, by decide, by decide, by decide⟩
+  intro hst
+  have := hst [("Date", "d")] [[("X-A", ["a"])]] [0, 0] (by decide) 0 (by decide)
+  revert this
+  decide
+
+/-- … but it does hold for the aliasing build when every decoded header carries a Host entry or is empty (the fast path
+is never taken: why pools whose ammo name a Host never showed the seeded change) -/
+theorem C11_acquire_alias_partial (mws : List (String × String)) (st : Store) (src : Nat)
+    (hh : aliasCond (st.getD src []) = false) :
+    acquire .alias mws st src = acquire .fresh mws st src := by
+  unfold acquire build
+  simp only [hh]
+  rfl
+
+/-! ### results handed out by shared components -/
+
+/-- no function of the current source hands out memory of an object it puts back into a sync.Pool -/
+theorem C11_no_pooled_escape : Pandora.Gen.Locks.pooledEscapes = [] := by decide
+
+/-- a function that renders into a pooled buffer, hands the buffer's bytes to its caller and puts the buffer back (the
+seeded text templater): its program violates the ownership discipline (it gives what it no longer holds), and with the
+instance that received the bytes reading them while the next `Get` writes them the trace is not data-race free -/
+theorem C11_pooled_result_counterexample :
+    progOkB (fun _ => Class.sharedSync 0) 0 [] Pandora.Spec.C11.escapeOps = false ∧
+    Pandora.Spec.C11.judgeEscapes [("components/providers/scenario/http/templater.Apply", "strBuilder", "parts.Body = strBuilder.Bytes()")] ≠ "ok" ∧
+    ¬ DRF [.acq 0 0, .acc 0 0 true 1, .rel 0 0, .acc 1 0 false 0, .acq 2 0, .acc 2 0 true 2, .rel 2 0] := by
+  refine ⟨by decide, by decide, ?_⟩
+  intro h
+  have hb := h 3 5 _ _ (by decide) rfl rfl (by simp [Conflict])
+  obtain ⟨_, hc⟩ := hb_cases _ _ _ hb
+  rcases hc with ⟨a, b, ha, hb', hab⟩ | ⟨p, q, t, t', l, hp, hpq, hq, hrel, _⟩
+  · simp at ha hb'
+    subst ha; subst hb'
+    simp [Ev.thread] at hab
+  · have : p = 3 ∨ p = 4 := by omega
+    rcases this with rfl | rfl <;> simp at hrel
 
 /-! ### guns -/
 
